@@ -2,7 +2,9 @@
 C05 — bound variables are invisible: no capture, no leakage, renaming-invariant.
 
 Correspondence.  Expressions are nestings of the binder-introducing constructors
-{Reduce, Lambda(+getitem), Cat(part_name)(+Subs of its name), Contraction, Subs, Independent} plus Binary glue,
+{Reduce, Lambda(+getitem), Cat(part_name)(+Subs of its name), Contraction, Subs, Independent, MarkovProduct
+(time-dependent and time-homogeneous transitions, one step pair), Integrate, Scatter, Approximate (eager only:
+open finding)} plus Binary glue,
 with EVERY name (binders, free inputs of leaves, substituted keys and the free names of substituted values,
 index variables) drawn from the 3-name pool {i, j, k} (all of one size), so binder names coincide with free
 names of siblings / substituted values, with other binders at nested and sibling positions, and a bint-valued
@@ -15,7 +17,10 @@ lazy+reinterpret, reflect+reinterpret and normalize+reinterpret and compared, on
     same value table, same inputs),
 
 and its reflected syntax is walked: `.bound` never meets `.inputs` at any node, every bound name carries the
-`__BOUND` marker, `.inputs` = the user-level free names.  The binder pattern (base names, sharing) is compared
+`__BOUND` marker, `.bound` contains every name the node's CONSTRUCTOR ARGUMENTS say it binds (MarkovProduct: the time
+name and all step names; Integrate/Scatter/Reduce/Contraction: reduced_vars; …), `.inputs` = the user-level free names.
+MarkovProduct / Integrate / Scatter are not in the shared Lean Term: their user-level meaning is sent to `denote` as the
+explicit sum-product it abbreviates (left fold over the time steps; Σ_v mask·f; source[src := perm⁻¹(dest)]).  The binder pattern (base names, sharing) is compared
 with the Lean model of `reflect`/`_alpha_mangle` (counted as model fidelity, not gated).
 
 Streams:  clean (above; never applies the optimizer to sibling-shared binders) · fusion (bodies kept lazy by free
@@ -41,9 +46,12 @@ from funsor.cnf import Contraction
 from funsor.interpretations import reflect, lazy, eager, normalize
 from funsor.interpreter import reinterpret
 from funsor.optimizer import apply_optimizer
+from funsor.sum_product import MarkovProduct
+from funsor.integrate import Integrate
 
 POOL = ["i", "j", "k"]
 RPOOL = ["x", "y"]
+SPOOL = ["p", "q"]          # extra names for MarkovProduct step pairs / Scatter destinations
 MARK = "__BOUND"
 MODES = ["eager", "lazy", "reflect", "normalize"]
 MODES_OPT = MODES + ["optimize"]     # + apply_optimizer: only where no two sibling binders are shared
@@ -120,7 +128,7 @@ class Gen:
                 return pick                             # would be re-typed / captured by the outer diag_var)
         cons = ["reduce", "reduce", "lamget", "cat", "subs", "subs"]
         if kind == "real":
-            cons += ["contr", "contr", "binary", "binary"]
+            cons += ["contr", "contr", "binary", "binary", "markov", "integ", "scatter", "approx"]
             if allow_indep:
                 cons.append("indep")
         c = rng.choice(cons)
@@ -195,6 +203,40 @@ class Gen:
             else:
                 idx = ("bnum2", rng.randrange(2 * n))
             return ("cat", v, p, parts[0], parts[1], idx)
+        if c == "markov":
+            body = self.expr(d, "real", allow_indep)
+            tn = rng.choice(POOL)
+            if rng.random() < 0.7:
+                p, q = rng.sample(SPOOL, 2)
+            else:
+                p, q = rng.sample([x for x in POOL if x != tn], 2)
+            body = self.force(self.force(body, "real", p), "real", q)
+            if rng.random() < 0.5:
+                body = self.force(body, "real", tn)       # else possibly time-homogeneous
+            return ("markov", tn, p, q, body)
+        if c == "integ":
+            v = rng.choice(POOL)
+            names = [v] + [x for x in POOL if x != v and rng.random() < 0.4][:1]
+            rng.shuffle(names)
+            mask = ("leaf", self.fresh_lid(), tuple(names), tuple(rng.choice([0, 1, 1]) for _ in range(n ** len(names))))
+            return ("integ", v, mask, self.expr(d, "real", allow_indep))
+        if c == "scatter":
+            source = self.expr(d, "real", allow_indep)
+            src = rng.choice(POOL)
+            source = self.force(source, "real", src)
+            # the destination is never a name that anything substitutes for or binds: a lazy Scatter silently DROPS
+            # every non-Variable substitution for its destination (Scatter.eager_subs; reported, C04's subject)
+            dest = "s"
+            if dest in free(source):
+                return self.make("integ", depth, kind, allow_indep)
+            perm = list(range(n))
+            rng.shuffle(perm)
+            return ("scatter", dest, src, tuple(perm), source)
+        if c == "approx":
+            model = self.expr(d, "real", allow_indep)
+            v = rng.choice(POOL)
+            model = self.force(model, "real", v)
+            return ("approx", v, model, self.leaf("real", [v]))
         if c == "indep":
             body = self.expr(d, "real", False)
             bv = rng.choice(POOL)
@@ -213,7 +255,7 @@ class Gen:
 
 def kind_of(r):
     t = r[0]
-    if t in ("leaf", "binary", "contr", "indep", "rget"):
+    if t in ("leaf", "binary", "contr", "indep", "rget", "markov", "integ", "scatter", "approx"):
         return "real"
     if t in ("bleaf", "bvar", "bnum"):
         return "bint"
@@ -253,12 +295,24 @@ def free(r):
         return ((free(r[3]) | free(r[4])) - {r[2]} - {r[1]}) | free(r[5])
     if t == "indep":
         return free(r[1]) - {r[2]}
+    if t == "markov":      # ("markov", time, prev, curr, trans): the step names are re-exposed as inputs
+        return (free(r[4]) - {r[1], r[2], r[3]}) | {r[2], r[3]}
+    if t == "integ":       # ("integ", v, mask_leaf, integrand)
+        return (free(r[2]) | free(r[3])) - {r[1]}
+    if t == "scatter":     # ("scatter", dest, src, perm, source)
+        return (free(r[4]) - {r[2]}) | {r[1]}
+    if t == "approx":      # ("approx", v, model, guide_leaf)
+        return free(r[2]) | free(r[3])
     raise ValueError(t)
 
 
 def has_indep(r):
     return r[0] == "indep" or any(has_indep(x) for x in r if isinstance(x, tuple) and x and isinstance(x[0], str)
                                   and x[0] in TAGS)
+
+
+def has_tag(r, tag):
+    return any(s_[0] == tag for s_ in subrecipes(r))
 
 
 def real_names(r):
@@ -272,7 +326,7 @@ def real_names(r):
     return out
 
 
-TAGS = {"rget", "leaf", "bleaf", "bleaf2", "bvar", "bnum", "bnum2", "binary", "reduce", "lamget", "contr", "subs", "cat", "indep"}
+TAGS = {"markov", "integ", "scatter", "approx", "rget", "leaf", "bleaf", "bleaf2", "bvar", "bnum", "bnum2", "binary", "reduce", "lamget", "contr", "subs", "cat", "indep"}
 
 
 def subrecipes(r):
@@ -299,6 +353,12 @@ def binders(r):
             out += [s[2], s[1]]
         elif t == "indep":
             out += [s[2], s[3]]
+        elif t == "markov":
+            out += [s[1], s[2], s[3]]
+        elif t == "integ":
+            out.append(s[1])
+        elif t == "scatter":
+            out.append(s[2])
     return out
 
 
@@ -307,7 +367,7 @@ def depth_of(r):
     t = r[0]
     kids = [x for x in r[1:] if isinstance(x, tuple) and x and isinstance(x[0], str) and x[0] in TAGS]
     d = max([depth_of(k) for k in kids], default=0)
-    return d + (1 if t in ("reduce", "lamget", "contr", "subs", "cat", "indep") else 0)
+    return d + (1 if t in ("reduce", "lamget", "contr", "subs", "cat", "indep", "markov", "integ", "scatter") else 0)
 
 
 # ------------------------------------------------------------------------------------------------
@@ -364,6 +424,24 @@ def build(r, n, cache=None):
     if t == "indep":
         fn = build(r[1], n, cache) * Variable(r[3], Real)
         return Independent(fn, "x", r[2], r[3])
+    if t == "markov":
+        return MarkovProduct(ops.add, ops.mul, build(r[4], n, cache), Variable(r[1], Bint[n]), {r[2]: r[3]})
+    if t == "integ":
+        m = r[2]
+        key = ("logmask", m[1], m[2])
+        if key not in cache:
+            with np.errstate(divide="ignore"):
+                cache[key] = np.log(_arr(m[3], m[2], n, np.float64))
+        lm = Tensor(cache[key], OrderedDict((x, Bint[n]) for x in m[2]), "real")
+        return Integrate(lm, build(r[3], n, cache), frozenset({Variable(r[1], Bint[n])}))
+    if t == "scatter":
+        key = ("perm", r[3], r[2])
+        if key not in cache:
+            cache[key] = np.array(r[3], dtype=np.int64)
+        idx = Tensor(cache[key], OrderedDict([(r[2], Bint[n])]), n)
+        return Scatter(ops.add, ((r[1], idx),), build(r[4], n, cache), frozenset({Variable(r[2], Bint[n])}))
+    if t == "approx":
+        return build(r[2], n, cache).approximate(ops.logaddexp, build(r[3], n, cache), r[1])
     raise ValueError(t)
 
 
@@ -400,6 +478,29 @@ def wire(r, n):
     if t == "indep":
         fn = ["binary", ["mul"], wire(r[1], n), ["var", Q(r[3]), ["real"]]]
         return ["independent", fn, Q("x"), Q(r[2]), Q(r[3]), n]
+    if t == "markov":
+        # the shared Term has no MarkovProduct: its user-level meaning, the explicit left fold over the n time
+        # steps, written as one sum-product  Σ_{m1..} Π_k trans[time:=k, prev:=m_k, curr:=m_{k+1}]
+        tn, p, c = r[1], r[2], r[3]
+        body = wire(r[4], n)
+        mid = [f"_m{k}" for k in range(1, n)]
+        chain = [None] + mid + [None]
+        terms = []
+        for k in range(n):
+            sub = [[Q(tn), ["num", k, n]]]
+            if chain[k] is not None:
+                sub.append([Q(p), ["var", Q(chain[k]), B]])
+            if chain[k + 1] is not None:
+                sub.append([Q(c), ["var", Q(chain[k + 1]), B]])
+            terms.append(["subs", body, sub])
+        return ["contraction", "add", "mul", [[Q(x), B] for x in mid]] + terms
+    if t == "integ":
+        return ["contraction", "add", "mul", [[Q(r[1]), B]], wire(r[2], n), wire(r[3], n)]
+    if t == "scatter":
+        inv = [list(r[3]).index(d) for d in range(n)]
+        return ["subs", wire(r[4], n), [[Q(r[2]), ["tensor", [[Q(r[1]), n]], B, inv]]]]
+    if t == "approx":
+        return wire(r[2], n)
     raise ValueError(t)
 
 
@@ -433,6 +534,19 @@ def pyof(r, n, names=None):
         return f"Cat({r[1]!r}, ({pyof(r[3], n)}, {pyof(r[4], n)}), {r[2]!r})(**{{{r[1]!r}: {pyof(r[5], n)}}})"
     if t == "indep":
         return f"Independent(({pyof(r[1], n)}) * Variable({r[3]!r}, Real), 'x', {r[2]!r}, {r[3]!r})"
+    if t == "markov":
+        return (f"MarkovProduct(ops.add, ops.mul, {pyof(r[4], n)}, Variable({r[1]!r}, Bint[{n}]), "
+                f"{{{r[2]!r}: {r[3]!r}}})")
+    if t == "integ":
+        m = r[2]
+        lm = (f"Tensor(np.log(L{m[1]}_{'_'.join(m[2]) or 'c'}), OrderedDict([" +
+              ", ".join(f"({x!r}, Bint[{n}])" for x in m[2]) + "]), 'real')")
+        return f"Integrate({lm}, {pyof(r[3], n)}, frozenset({{Variable({r[1]!r}, Bint[{n}])}}))"
+    if t == "scatter":
+        return (f"Scatter(ops.add, (({r[1]!r}, Tensor(np.array({list(r[3])}), OrderedDict([({r[2]!r}, Bint[{n}])]), {n})),), "
+                f"{pyof(r[4], n)}, frozenset({{Variable({r[2]!r}, Bint[{n}])}}))")
+    if t == "approx":
+        return f"({pyof(r[2], n)}).approximate(ops.logaddexp, {pyof(r[3], n)}, {r[1]!r})"
     raise ValueError(t)
 
 
@@ -443,6 +557,9 @@ from funsor.domains import Bint, Real, Reals
 from funsor.tensor import Tensor
 from funsor.terms import Number, Variable, Cat, Lambda, Independent, Reduce
 from funsor.cnf import Contraction
+from funsor.terms import Scatter
+from funsor.sum_product import MarkovProduct
+from funsor.integrate import Integrate
 from funsor.interpretations import reflect, lazy, eager, normalize
 from funsor.interpreter import reinterpret
 import funsor.ops as ops
@@ -522,6 +639,23 @@ def pyeval(r, env, n, xval=None):
         for i in range(n):
             tot += pyeval(r[1], {**env, r[2]: i}, n, xval) * xval[i]
         return tot
+    if t == "markov":      # explicit left fold of the n transition matrices
+        tn, p, c = r[1], r[2], r[3]
+        mats = [[[pyeval(r[4], {**env, tn: k, p: a, c: b}, n, xval) for b in range(n)] for a in range(n)]
+                for k in range(n)]
+        M = mats[0]
+        for k in range(1, n):
+            M = [[sum(M[a][m] * mats[k][m][b] for m in range(n)) for b in range(n)] for a in range(n)]
+        return M[env[p]][env[c]]
+    if t == "integ":
+        return sum(pyeval(r[2], {**env, r[1]: i}, n, xval) * pyeval(r[3], {**env, r[1]: i}, n, xval) for i in range(n))
+    if t == "scatter":
+        e2 = dict(env)
+        d = e2.pop(r[1])
+        e2[r[2]] = list(r[3]).index(d)
+        return pyeval(r[4], e2, n, xval)
+    if t == "approx":
+        return pyeval(r[2], env, n, xval)
     raise ValueError(t)
 
 
@@ -577,6 +711,20 @@ def rename_binders(r, counter=None, m=None):
     if t == "indep":
         ub, ud = fresh(), fresh()
         return ("indep", rename_binders(r[1], counter, {**m, r[2]: ub}), ub, ud)
+    if t == "markov":
+        # only the time name is a pure binder; the step names are also the (free) inputs of the result, so they
+        # follow the surrounding scope consistently, inside and outside
+        u = fresh()
+        return ("markov", u, nm(r[2]), nm(r[3]), rename_binders(r[4], counter, {**m, r[1]: u}))
+    if t == "integ":
+        u = fresh()
+        m2 = {**m, r[1]: u}
+        return ("integ", u, rename_binders(r[2], counter, m2), rename_binders(r[3], counter, m2))
+    if t == "scatter":
+        u = fresh()
+        return ("scatter", nm(r[1]), u, r[3], rename_binders(r[4], counter, {**m, r[2]: u}))
+    if t == "approx":
+        return ("approx", nm(r[1]), rename_binders(r[2], counter, m), rename_binders(r[3], counter, m))
     raise ValueError(t)
 
 
@@ -650,6 +798,24 @@ def walk(f, seen=None):
             yield from walk(k, seen)
 
 
+def documented_bound(node):
+    """the names the class documents as bound, read from the CONSTRUCTOR ARGUMENTS of the node (not from `.bound`
+    and not from the inputs of its children)"""
+    if isinstance(node, (Reduce, Contraction, Integrate, Scatter)):
+        return {v.name for v in node.reduced_vars}
+    if isinstance(node, Lambda):
+        return {node.var.name}
+    if isinstance(node, Cat):
+        return {node.part_name}
+    if isinstance(node, Independent):
+        return {node.bint_var, node.diag_var}
+    if isinstance(node, Subs):
+        return set(node.subs)
+    if isinstance(node, MarkovProduct):
+        return {node.time.name} | set(node.step) | set(node.step.values())
+    return set()
+
+
 def check_names(syn, user_free, real_free, exact_inputs=True):
     """-> None | (kind, detail)  — the name clauses of the property on a (reflected or rewritten) term"""
     for node in walk(syn):
@@ -659,6 +825,10 @@ def check_names(syn, user_free, real_free, exact_inputs=True):
         for b in node.bound:
             if MARK not in b:
                 return ("unmarked-binder", f"{type(node).__name__}: bound {sorted(node.bound)}")
+        missing = documented_bound(node) - set(node.bound)
+        if missing:
+            return ("documented-binder-not-bound",
+                    f"{type(node).__name__}: constructor binds {sorted(documented_bound(node))}, .bound = {sorted(node.bound)}")
     ins = set(syn.inputs)
     if any(MARK in x for x in ins):
         return ("leaked-bound-name", f"inputs {sorted(ins)}")
@@ -698,7 +868,17 @@ def py_table(r, ins, n, xval):
 def tables_same(a, b):
     if not isinstance(a, list) or not isinstance(b, list):
         return False
-    return len(a) == len(b) and all(same_num(x, y) for x, y in zip(a, b))
+    return len(a) == len(b) and all(same_num(x, y) or _big_close(x, y) for x, y in zip(a, b))
+
+
+def _big_close(x, y):
+    """beyond 2^50 float64 arithmetic on integers is no longer exact (nested Markov products / mul-reductions):
+    there, and only there, compare with a relative tolerance"""
+    try:
+        return (isinstance(x, Fraction) and isinstance(y, Fraction) and max(abs(x), abs(y)) > 2 ** 50
+                and abs(x - y) <= Fraction(1, 10 ** 9) * max(abs(x), abs(y)))
+    except Exception:
+        return False
 
 
 def lean_request(r, ins, n, xval):
@@ -742,6 +922,8 @@ def failing_modes(r, n, xval, oracle_tab, ins, modes=MODES):
     """modes whose value differs from the oracle table (python-side; used by shrink/search/replay)"""
     bad = []
     has_rget = any(s_[0] == "rget" for s_ in subrecipes(r))
+    if has_tag(r, "approx"):
+        modes = ["eager"]
     for mode in modes:
         if mode == "normalize" and has_rget and "optimize" not in modes:
             continue      # see check_cases: KF-contraction-absent-var region for random recipes
@@ -770,7 +952,7 @@ def fails_py(r, n, xval, modes=MODES):
     or leak / fail the name clauses?"""
     try:
         ins = sorted(free(r))
-        if len(ins) > 3:
+        if len(ins) > 4:
             return None
         orc = py_table(r, ins, n, xval)
     except Exception:
@@ -778,6 +960,8 @@ def fails_py(r, n, xval, modes=MODES):
     bad = failing_modes(r, n, xval, orc, ins, modes)
     if bad:
         return ("value", bad[0][0], orc, bad[0][1])
+    if has_tag(r, "approx"):
+        return None
     try:
         syn = syntax(r, n)
     except DECLINE + (RecursionError,):
@@ -854,13 +1038,14 @@ def clean_stream(ctx, ncases):
     for _ in range(ncases):
         n, r, xval = gen_case(rng, ctx.tier)
         ins = sorted(free(r))
-        if len(ins) > 3:
+        if len(ins) > 4:
             continue
         cases.append((n, r, xval, ins))
     check_cases(ctx, cases, "random")
 
 
 CONS = ["reduce", "lamget", "cat", "contr", "subs", "indep"]
+CONS2 = ["markov", "markov-hom", "integ", "scatter"]     # binder classes the shared Lean Term lacks (see `wire`)
 
 
 def mk(g, cons, v, w, body):
@@ -878,6 +1063,28 @@ def mk(g, cons, v, w, body):
         if has_indep(body):
             return None
         return ("indep", g.force(body, "real", v), v, "x" if w == "i" else "y")
+    if cons in ("markov", "markov-hom"):
+        # time name v (adversarial), step pair (p, q); the auxiliary name w stays a free input of the transition
+        b = body
+        if cons == "markov-hom":
+            if v in free(b):
+                b = ("subs", b, v, ("bnum", 0))           # time-homogeneous: the transition does not mention v
+        else:
+            b = g.force(b, "real", v)
+        if v != w:
+            b = g.force(b, "real", w)
+        b = ("binary", "mul", b, g.leaf("real", ["p", "q"]))
+        return ("markov", v, "p", "q", b)
+    if cons == "integ":
+        mask = ("leaf", g.fresh_lid(), (v,), tuple([1, 0, 1][:n]))
+        return ("integ", v, mask, body)
+    if cons == "scatter":
+        src = v
+        source = g.force(body, "real", src)
+        dest = "s"       # see Gen.make: substitutions for a lazy Scatter's destination are dropped by funsor
+        if dest in free(source):
+            return None
+        return ("scatter", dest, src, tuple(reversed(range(n))), source)
     if cons == "cat":
         p = w
         if p != v and v in free(body):
@@ -910,6 +1117,32 @@ def enum_stream(ctx):
                 xval = (1, 2) if has_indep(outer) else None
                 cases.append((n, outer, xval, ins))
     n_exh = len(cases)
+    # the four further binder classes, as inner and as outer constructor of every class, then a substitution of a
+    # value named like ANY pool name (so: like the time / reduced / source name) for a remaining free input
+    extra = []
+    for c2 in CONS2:
+        for c1 in CONS + CONS2:
+            for v2, v1, w in itertools.product(POOL, POOL, POOL):
+                if quick and rng.random() > 0.2:
+                    continue
+                for inner_c, outer_c, vi, vo in ((c2, c1, v2, v1), (c1, c2, v1, v2)):
+                    inner = mk(g, inner_c, vi, w, base)
+                    outer = mk(g, outer_c, vo, w, inner) if inner is not None else None
+                    if outer is not None:
+                        extra.append(outer)
+        for v, w in itertools.product(POOL, POOL):
+            one = mk(g, c2, v, w, base)
+            if one is None:
+                continue
+            for key in sorted(free(one) & set(POOL)):
+                for u in POOL:
+                    extra.append(("subs", one, key, ("bvar", u)))
+                    extra.append(("subs", one, key, g.leaf("bint", [u])))
+    for r_ in extra:
+        ins = sorted(free(r_))
+        if len(ins) <= 4:
+            cases.append((n, r_, (1, 2) if has_indep(r_) else None, ins))
+    ctx.count("enumerated:further-binder-classes", len(extra))
     if not quick:
         triples = list(itertools.product(CONS, CONS, CONS))
         for _ in range(6000):
@@ -1036,7 +1269,7 @@ def check_cases(ctx, cases, stream, modes=MODES):
             continue
         # --- names on reflected syntax
         try:
-            syn = syntax(r, n)
+            syn = syntax(r, n) if not has_tag(r, "approx") else None
         except DECLINE + (RecursionError,) as e:
             ctx.count(f"reflect-construction-declined:{type(e).__name__}")
             syn = None
@@ -1061,6 +1294,10 @@ def check_cases(ctx, cases, stream, modes=MODES):
         got_value = False
         outcome = {}
         case_modes = list(modes)
+        has_approx = any(s_[0] == "approx" for s_ in subrecipes(r))
+        if has_approx:
+            case_modes = ["eager"]        # a lazy Approximate leaks its mangled name: KF-approximate-binder-leak
+            ctx.count("approx:eager-only")
         if stream == "random" and any(s_[0] == "rget" for s_ in subrecipes(r)):
             # a Reduce whose variable disappears from a LAZY argument on reinterpretation loses its multiplicity
             # under normalize (open finding KF-contraction-absent-var, not C05's subject): the fusion stream,
@@ -1102,7 +1339,7 @@ def check_cases(ctx, cases, stream, modes=MODES):
         r2 = rename_binders(r)
         # the user's choice of bound names must not decide WHETHER a value is returned either
         asym = None
-        for mode in ("reflect", "eager"):
+        for mode in [m_ for m_ in ("reflect", "eager") if m_ in outcome]:
             st, val2 = run_mode(r2, n, mode, xval)
             o2 = st if st != "value" else ("value" if isinstance(val2, (Tensor, Number)) else "lazy")
             if {outcome[mode], o2} == {"declined", "value"}:
@@ -1375,7 +1612,9 @@ def correspond(ctx):
                 "(hash-consed shared binders) and bint-valued terms substituted into themselves; each built under eager, "
                 "lazy/reflect/normalize + reinterpret and decided on its whole input space against Lean `denote` of the "
                 "user-level expression, a Python evaluator and the fresh-binder-names variant; reflected syntax walked "
-                "for bound∩inputs=∅ / markers / inputs; plus the fusion family (x[i,j,k]*z[a]*w[b] with free real arrays, 2-3 "
+                "for bound∩inputs=∅ / markers / documented binders ⊆ .bound / inputs; MarkovProduct (time-dependent and "
+                "-homogeneous), Integrate, Scatter as first-class constructors (inner and outer of every class, then "
+                "colliding-name substitutions); plus the fusion family (x[i,j,k]*z[a]*w[b] with free real arrays, 2-3 "
                 "nested Reduce/Contraction levels fused by eager/normalize/apply_optimizer, then a colliding-name "
                 "substitution; the rewritten lazy term of every mode is walked for unmarked binders). Non-trivial = binder depth >= 2, some value returned, and a binder "
                 "name that is also free somewhere in the expression or bound twice; distinct by full content." %
